@@ -46,7 +46,9 @@ VECTORS = ((2, 3, 5, 7, 11, 13), (7, 5, 3, 2, 11, 4), (0.5, 4, 3, 2, 8, 5),
            # tiny but non-zero divisors are not zero
            (2e-17, 3, 4e-17, 5, 8e-17, 2),
            # fractional exponents: a negated base has no real power
-           (4, 0.5, 9, 1.5, 2, 0.5))
+           (4, 0.5, 9, 1.5, 2, 0.5),
+           # x*0.01 is not x/100 for these
+           (57, 3, 115, 7, 29, 2))
 
 AT = 'Sheet1!Z1'
 
@@ -164,6 +166,14 @@ def run_case(tree, vec, rnames, ctx):
         if skip is None:
             if ref.accepts(want, got):
                 ctx.ok(key, got, nontriv)
+                # "redundant parentheses and blanks never change the
+                # result": not even in the last bit
+                if got.startswith('num:'):
+                    w = first_by_family.setdefault(spelling, got)
+                    if got != w:
+                        ctx.fail(key + '#same-bits',
+                                 sorted(set(rtags) | {'metamorphic:exact'}),
+                                 inputs, w, got, False)
             else:
                 ctx.fail(key, sorted(tags | set(rtags)), inputs,
                          ref.show(want), got, nontriv)
